@@ -451,8 +451,8 @@ theorem detSum_apply (m : Affine Rat) (s : Pt) (r : List Pt) :
 multiplied by `det` under every affine map; the signed area therefore scales by `det` and flips
 sign under reflections and the axis swap. -/
 theorem ringArea_apply_closed (m : Affine Rat) (r : List Pt) (hc : r.head? = r.getLast?) :
-    twiceSignedRingArea (r.map m.applyPt) = m.det * twiceSignedRingArea r := by
-  unfold twiceSignedRingArea
+    affTwiceSignedRingArea (r.map m.applyPt) = m.det * affTwiceSignedRingArea r := by
+  unfold affTwiceSignedRingArea
   have hc' : (r.map m.applyPt).head? = (r.map m.applyPt).getLast? := by
     rw [List.head?_map, List.getLast?_map, hc]
   simp only [List.length_map, hc, hc', ne_eq, not_true_eq_false, if_false]
@@ -462,8 +462,8 @@ theorem ringArea_apply_closed (m : Affine Rat) (r : List Pt) (hc : r.head? = r.g
     | nil => simp
     | cons s t => simp only [List.map_cons]; rw [← List.map_cons, detSum_apply]
 
-example : twiceSignedRingArea [⟨0, 0⟩, ⟨2, 0⟩, ⟨0, 2⟩, ⟨0, 0⟩] = 4 := by
-  simp [twiceSignedRingArea, detSum]; norm_num
+example : affTwiceSignedRingArea [⟨0, 0⟩, ⟨2, 0⟩, ⟨0, 2⟩, ⟨0, 0⟩] = 4 := by
+  simp [affTwiceSignedRingArea, detSum]; norm_num
 
 /-- [T] `affine_transform` maps the coordinates of the point / line types one by one (no
 constructor re-normalisation is involved for these types). -/
